@@ -94,6 +94,7 @@ def tables_for(sp_, slice_, maxrows):
         for T in qcheck.tables_upto(rows, maxrows):
             if T or name == 'intstr':
                 res.append(T)
+        res.append(qcheck.long_table(rows, 2))     # beyond the exhaustive bound: 37 records, every ordered pair of rows adjacent (groups of ~18 records)
     return res
 
 
